@@ -68,6 +68,16 @@ def classify(ext: str):
     return None, None
 
 
+def _seeded_from_task(n: ast.AST) -> bool:
+    """``np.random.default_rng(<expr over task.seed>)`` / RandomState(..): a generator that is a function of the seed
+    does not escape it (whether it is re-created per run is C08's concern)."""
+    p = parent(n)
+    if not (isinstance(p, ast.Call) and p.func is n and (p.args or p.keywords)):
+        return False
+    a0 = p.args[0] if p.args else p.keywords[0].value
+    return any(isinstance(x, ast.Attribute) and x.attr == "seed" and dotted(x.value) in ("self._task", "task") for x in ast.walk(a0))
+
+
 def function_facts(prog: Program, resolver: Resolver, fi: FuncInfo) -> list:
     """[(node, kind, detail)] for fi's own nodes."""
     out = []
@@ -79,6 +89,8 @@ def function_facts(prog: Program, resolver: Resolver, fi: FuncInfo) -> list:
             ext = resolver.ext_name(fi, n)
             if ext:
                 k, d = classify(ext)
+                if k == "forbidden" and _seeded_from_task(n):
+                    k, d = "seeded-generator", f"{ext} seeded from the task seed"
                 if k:
                     out.append((n, k, d))
         elif isinstance(n, ast.Name) and isinstance(n.ctx, ast.Load):
@@ -278,10 +290,11 @@ VARIANTS = [
     V("seed-removed", _A, "        np.random.seed(task.seed)\n", "", "C07.R2"),
     V("constructor-draw", _W, "        super().__init__(config, debug)\n",
       "        super().__init__(config, debug)\n        self.__phase = np.random.uniform()\n", "C07.R3"),
+    V("twin-generator-seeded-from-task", _W, _ANCHOR, _ANCHOR + "        rng = np.random.default_rng(self._task.seed)\n", None),
     V("reseed-in-step", _W, _ANCHOR, _ANCHOR + "        np.random.seed(0)\n", "C07.R2"),
     V("wall-clock-jitter", _H, "    r = np.random.random()\n    c = np.cumsum(p)\n",
       "    r = np.random.random() + (time.time() % 1e-9)\n    c = np.cumsum(p)\n", "C07.R1",
-      more=[(_H, "import math\nimport random\n", "import math\nimport random\nimport time\n")]),
+      more=[(_H, "import math\nimport numpy as np\n", "import math\nimport time\nimport numpy as np\n")]),
     V("seed-constant", _A, "        np.random.seed(task.seed)\n", "        np.random.seed(1234)\n", "C07.R2"),
     V("module-level-draw", _W, "class WhalesOptimization(OptimizationAbstract):\n",
       "_PHASE = np.random.uniform()\n\n\nclass WhalesOptimization(OptimizationAbstract):\n", "C07.R3"),
